@@ -307,6 +307,17 @@ def run(chk, ctx):
         chk.ob('C05.Z', ts.short, okk and prop,
                fact + '; conversion failures propagate: %s' % sorted(esc),
                site=site)
+    # values of a frame come from that frame alone
+    from .c16 import check_fresh
+    from .. import framepaths as F_
+    chk.rule('C05.S', 'every object in a decoded content header is created '
+             'by that decode call (an absent property is the default of a '
+             'new object, not whatever an earlier frame left in a shared '
+             'one)')
+    f0 = F_.UnmarshalFacts(ctx, None)
+    for r in f0.rets:
+        if f0.kind_of(r) == 'header':
+            check_fresh(chk, f0, r, 'content header result', 'C05.S')
     from .. import tsrules
     chk.rule('C05.W', 'multi-word property flags: word k lands at bits '
              '16k..16k+15, so the first word (where all 14 flag masks '
